@@ -192,8 +192,8 @@ def r17_3(ctx):
         par = m.parent_of.get(slices[0])
         ctx.check(isinstance(par, ast.If) and full173(par.test) == "self.line_range", f.fq, "if self.line_range", f"{m.relpath}:{slices[0].lineno}", "slicing only when a range was requested", "line slicing is not guarded by `if self.line_range`")
     # highlight marker compares the displayed number
-    ctx.check("highlight_line(line_no)" in norm(f.node) and "highlight_line = self.highlight_lines.__contains__" in norm(f.node), f.fq, "highlight_line(line_no)", f.where, "the failing-line marker is chosen by the displayed line number", "the highlight marker is not selected by the displayed line number")
-    ctx.check("str(line_no).rjust(numbers_column_width - 2)" in norm(f.node), f.fq, "str(line_no)", f.where, "the gutter shows line_no", "the gutter does not show the enumerated line number")
+    ctx.shape("highlight_line(line_no)" in norm(f.node) and "highlight_line = self.highlight_lines.__contains__" in norm(f.node), f.fq, "highlight_line(line_no)", f.where, "the failing-line marker is chosen by the displayed line number", "the highlight marker is not selected by the displayed line number")
+    ctx.shape("str(line_no).rjust(numbers_column_width - 2)" in norm(f.node), f.fq, "str(line_no)", f.where, "the gutter shows line_no", "the gutter does not show the enumerated line number")
     w = ctx.repo.cls("syntax:Syntax").method("_numbers_column_width")
     from ..yieldpaths import Unsupported, paths_of, resolve
     try:
@@ -269,8 +269,39 @@ def r17_4(ctx):
     ctx.check(ok, f.fq, "except ClassNotFound: text.append(code)", f.where, "unknown lexer falls back to the plain code", "the unknown-lexer fallback does not append the code itself")
     # __rich_console__ feeds highlight with the (dedented, tab-expanded) code only
     rc = ctx.repo.fn("syntax:Syntax.__rich_console__")
-    s3 = norm(rc.node)
-    ctx.check("code = textwrap.dedent(self.code) if self.dedent else self.code" in s3 and "code = code.expandtabs(self.tab_size)" in s3, rc.fq, "code preparation", rc.where, "only dedent (optional) and tab expansion are applied before highlighting", "the code is transformed beyond optional dedent and tab expansion before highlighting")
+    # decided on the path normal form: on every path the argument of self.highlight(..) is  <code>.expandtabs(self.tab_size)  with
+    # <code> = self.code or textwrap.dedent(self.code)
+    from ..yieldpaths import Enumerator, Unsupported, resolve
+    try:
+        rpaths = [resolve(pp) for pp in Enumerator(rc.node).run()]
+    except Unsupported as u:
+        raise AnalysisError(f"Syntax.__rich_console__: {u}")
+    seen_args = {}
+    for path in rpaths:
+        for ev in path:
+            for txt in ev[1:]:
+                if not isinstance(txt, str) or "self.highlight(" not in txt:
+                    continue
+                try:
+                    e = ast.parse(txt, mode="eval").body
+                except SyntaxError:
+                    continue
+                for c in ast.walk(e):
+                    if isinstance(c, ast.Call) and norm(c.func) == "self.highlight" and c.args:
+                        seen_args.setdefault(norm(c.args[0]), c.args[0])
+    if not seen_args:
+        raise AnalysisError("Syntax.__rich_console__: no call of self.highlight(..) found on any path")
+    raw = ("self.code", "textwrap.dedent(self.code)", "dedent(self.code)")
+    for txt, a in sorted(seen_args.items()):
+        if isinstance(a, ast.Call) and isinstance(a.func, ast.Attribute) and a.func.attr == "expandtabs" and norm(a.func.value) in raw:
+            if len(a.args) == 1 and norm(a.args[0]) == "self.tab_size":
+                ctx.ok(rc.where, f"highlight() receives `{txt}`", rc.fq)
+            else:
+                ctx.violation(rc.fq, f"self.highlight({txt}, ..)", rc.where, f"tabs are expanded with `{norm(a)[-40:]}` instead of the Syntax's tab_size: the rendered lines do not show the source with tabs expanded to tab_size")
+        elif txt in raw:
+            ctx.violation(rc.fq, f"self.highlight({txt}, ..)", rc.where, f"on some path the code reaches highlight() as `{txt}`, without expandtabs(self.tab_size): raw tab characters are rendered (with line numbers) or expanded to the console's tab size of 8 - in every Traceback, which uses dedent=False")
+        else:
+            raise AnalysisError(f"Syntax.__rich_console__: highlight() receives `{txt}`; cannot tell whether that is the code with only dedent and tab expansion applied")
 
 
 def r17_5(ctx):
@@ -327,9 +358,9 @@ def r17_7(ctx):
     ctx.check(cs == {("lit", " ")}, f.fq, rx.args[0].value, f"{m.relpath}:{rx.lineno}", "indentation = ASCII spaces only", f"the indentation group of `{rx.args[0].value}` matches {cs}: characters other than ASCII spaces would be replaced by guides")
     src = norm(f.node)
     ok = "full_indents, remaining_space = divmod(len(indent), _indent_size)" in src and "new_indent = f\"{indent_line * full_indents}{' ' * remaining_space}\"" in src.replace("'", "'") or "line.plain = new_indent + line.plain[len(new_indent):]" in src
-    ctx.check("line.plain = new_indent + line.plain[len(new_indent):]" in src and "divmod(len(indent), _indent_size)" in src, f.fq, "line.plain = new_indent + line.plain[len(new_indent):]", f.where,
+    ctx.shape("line.plain = new_indent + line.plain[len(new_indent):]" in src and "divmod(len(indent), _indent_size)" in src, f.fq, "line.plain = new_indent + line.plain[len(new_indent):]", f.where,
               "exactly the leading len(new_indent) characters are replaced", "the guides do not replace exactly the indentation prefix")
-    ctx.check("indent_line = f\"{character}{' ' * (_indent_size - 1)}\"" in src or "indent_line" in src, f.fq, "indent_line", f.where, "one guide character plus spaces per indent level", "indent_line is no longer one guide character plus spaces")
+    ctx.shape("indent_line = f\"{character}{' ' * (_indent_size - 1)}\"" in src or "indent_line" in src, f.fq, "indent_line", f.where, "one guide character plus spaces per indent level", "indent_line is no longer one guide character plus spaces")
 
 
 def r17_8(ctx):
